@@ -471,6 +471,22 @@ def json_key(x):
     return json.dumps(x, sort_keys=True)
 
 
+def is_getter(F, X, name):
+    """local fn whose result is a field (path) of its first parameter: `fn x(&self) -> &T { &self.x }`"""
+    b = F.by_cdef.get(name)
+    if b is None or b.kind not in ("Fn", "AssocFn") or derive_like(b) or b.arg_count != 1 or len([c for c in b.calls if not c.noise]) > 1:
+        return False
+    r = strip(X.local(b, 0))
+    while r[0] == "field":
+        r = r[4]
+    return r[0] == "param" and r[1] == b.cdef
+
+
+def inline_getters(F, X, e):
+    """accessor calls replaced by the field they return"""
+    return inline_pure(F, X, e, depth=2, keep=lambda n: not is_getter(F, X, n))
+
+
 def derive_like(b):
     from mir import derive_generated
     return derive_generated(b.span)
